@@ -46,7 +46,7 @@ def cron_entry(i: int) -> Any:
     off = st.one_of(st.none(), st.none(), st.fixed_dictionaries({"td_us": st.sampled_from([90 * SEC, -30 * SEC, 3600 * SEC, 30 * MIN + 5, 86400 * SEC, -86400 * SEC, 7 * 86400 * SEC + 3600 * SEC])}),
                     st.fixed_dictionaries({"zone": st.sampled_from(["Asia/Kathmandu", "Europe/Berlin"])}))
     good = st.tuples(mf, rest, off).map(lambda t: {"cron": t[0] + " " + t[1], "offset": t[2]})
-    bad = st.just({"cron": "*/5 * * *", "offset": None, "malformed": True})
+    bad = st.sampled_from([None, None, 1, 2, 3]).map(lambda r: {"cron": "*/5 * * *", "offset": None, "malformed": True, **({"repair_at": r} if r is not None else {})})
 
     # schedules created through the public API: kicker.schedule_by_cron(source, CronSpec(...)) with int or str fields
     def spec_entry(t: Any) -> Dict[str, Any]:
@@ -189,8 +189,10 @@ def run_case(case: Dict[str, Any]) -> Outcome:
                     listed = e["id"] in p["listed"]
                     lo = p["t"] // MIN * MIN
                     inmin = [k for k in ks if lo <= k["t"] < lo + MIN]
-                    if e.get("malformed"):
+                    if e.get("malformed") and not (e.get("repair_at") is not None and p["k"] >= e["repair_at"] and listed):
                         exp = 0
+                    elif e.get("malformed"):
+                        exp = 1          # repaired to "* * * * *" under the same id: due every minute from then on
                     elif not listed:
                         exp = 0
                     else:
